@@ -125,7 +125,7 @@ Definition step_check (p : params) (h : hstate) (o : vop) : hstate + list Z :=
             match xo_n xo with
             | None => inr (verdict false snd_ok [h_i h; E_PANIC])
             | Some n =>
-                if xo_tie xo && negb (xo_single xo) then
+                if xo_ptie xo || (xo_tie xo && negb (xo_single xo)) then
                   (* a per-query cut fell inside a tie group: aggregated answers may differ
                      legitimately; only soundness is decidable here *)
                   (if snd_ok then next s (h_live h) 1 else inr (v_violation [h_i h; -1]))
